@@ -901,7 +901,9 @@ func ruleS4(c *Ctx, rule string) {
 				continue
 			}
 			key := name + "." + f
-			if initW[f] {
+			if initW[f] && hasDirectFieldStore(initFn, f) && storeAvoidable(initFn, f) {
+				r.Finding(rule, key, c.P.pos(st.Field(i).Pos()), "field is written while decoding and Init resets it only on some paths (the store is conditional): a decoder reused for the next file can start with the previous file's state")
+			} else if initW[f] {
 				r.Discharge(rule, key, c.P.pos(st.Field(i).Pos()), "written by Decode and reset by Init")
 			} else {
 				r.Finding(rule, key, c.P.pos(st.Field(i).Pos()), "field is written while decoding but Init does not reset it: a decoder reused for the next file starts with stale state (file silently skipped or mixed)")
@@ -956,4 +958,17 @@ func receiverFieldWrites(c *Ctx, fn *ssa.Function, named *types.Named, seen map[
 	}
 	walk(fn, recv)
 	return out
+}
+
+// hasDirectFieldStore: fn itself stores into the receiver's field (rather than resetting it through a helper).
+func hasDirectFieldStore(fn *ssa.Function, field string) bool {
+	found := false
+	eachInstr(fn, func(ins ssa.Instruction) {
+		if st, ok := ins.(*ssa.Store); ok {
+			if fa, ok := st.Addr.(*ssa.FieldAddr); ok && fa.X == ssa.Value(fn.Params[0]) && fieldName(fa) == field {
+				found = true
+			}
+		}
+	})
+	return found
 }
